@@ -54,7 +54,10 @@ type hOHeap struct {
 	inner2  List // a second live list whose content the solver may make equal to inner's (distinct identity, possibly Equals)
 	inner2M []mval
 	innerO  Object // a live (empty) object stored by reference
-	deep    []bool // compare container values of this object deeply (Merge results) instead of by identity
+	// Keys()/Values() lists taken from the pre-state object: later object operations must not change them
+	exported  []List
+	exportedM []mval
+	deep      []bool // compare container values of this object deeply (Merge results) instead of by identity
 }
 
 func (h *hOHeap) add(o Object, m *mObj, deep bool) int {
@@ -92,6 +95,9 @@ func (h *hOHeap) check(what string) {
 	verifAssert(hSameSlots(mval{elem: h.innerM}, hSnapList(h.inner, false)), "object operations never change a list stored by reference")
 	verifAssert(hSameSlots(mval{elem: h.inner2M}, hSnapList(h.inner2, false)), "object operations never change a list stored by reference")
 	verifAssert(h.innerO.Count() == 0, "object operations never change an object stored by reference")
+	for i, l := range h.exported {
+		verifAssert(hSameSlots(h.exportedM[i], hSnapList(l, false)), "a list returned earlier by Keys()/Values() keeps showing the field set of that time (scalars are held by value)")
+	}
 }
 
 // a key: empty or one arbitrary byte ('.', '#', '"', non-ASCII all included)
@@ -356,6 +362,10 @@ func H_C06_step() {
 func H_C06_step2() {
 	verifBound("OPS", 2)
 	h := hMkOHeap(1)
+	for _, l := range []List{h.objs[0].Values(), h.objs[0].Keys()} {
+		h.exported = append(h.exported, l)
+		h.exportedM = append(h.exportedM, hSnapList(l, false))
+	}
 	op := []int{ooSet1, ooSet2, ooUnset1, ooClear, ooMerge, ooPluck1, ooNewObject}[nondetIntRange(0, 6)]
 	h.apply(0, op)
 	t := nondetIntRange(0, len(h.objs)-1)
